@@ -468,6 +468,57 @@ def check_fock_homodyne_sampled(n, hist, pure, res, num_bins, xmax=10.0):
                     res.violation(f"C06|homodyne|conditional-state|sampled|{kind}", f"sampled homodyne(phi={phi:.3g}) on mode {mode} of {htag(hist)} with outcome {x:.4g}: post-state differs from the projection on the quadrature eigenstate by {np.max(np.abs(got / gt - post.rho / tr)):.3g}", dict(case, answer=alt))
 
 
+# ----------------------------------------------------------------------------- hbar units of outcomes, re-execution of one operation object
+def check_hbar_outcomes(res):
+    """MeasureHomodyne(phi, select = x sqrt(hbar/2)) at hbar != 2, the same Program object executed twice: the reported
+    outcome is the selected value (in units of that hbar) both times and the other mode is conditioned on x both times"""
+    from mc.ref import opsem
+
+    old = sf.hbar
+    try:
+        for h in (0.5, 3.7):
+            s = math.sqrt(h / 2)
+            for backend in ("gaussian", "bosonic", "fock"):
+                for phi in PHIS[:3]:
+                    for x in SELS[1:]:
+                        res.n += 1
+                        res.nt += 1
+                        case = {"hbar_outcomes": True, "hbar": h, "backend": backend, "phi": phi, "x": x}
+                        sf.hbar = h
+                        prog = sf.Program(2)
+                        with prog.context as q:
+                            ops.Squeezed(0.3, 0.2) | q[0]
+                            ops.Dgate(0.2, 0.4) | q[0]
+                            ops.BSgate(0.5, 0.3) | (q[0], q[1])
+                            ops.MeasureHomodyne(phi, select=x * s) | q[0]
+                        ref = ph.GState(2)
+                        for c in list(prog.circuit)[:-1]:
+                            opsem.apply_gaussian(c.op, [r.ind for r in c.reg], ref)
+                        ref.condition_homodyne(0, phi, x)
+                        m_ref = ref.homodyne_dist(1, 0.0)[0], ref.homodyne_dist(1, PI / 2)[0]
+                        for attempt in (1, 2):
+                            try:
+                                with warnings.catch_warnings():
+                                    warnings.simplefilter("ignore")
+                                    r = sf.Engine(backend, backend_options={"cutoff_dim": 15} if backend == "fock" else None).run(prog)
+                                    got = float(np.real(np.ravel(r.samples)[0]))
+                                    mx = float(np.real(r.state.quad_expectation(1, 0.0)[0])) / s
+                                    mp = float(np.real(r.state.quad_expectation(1, PI / 2)[0])) / s
+                            except Exception as e:  # noqa: BLE001
+                                res.violation(f"C06|hbar-outcomes|raises|{type(e).__name__}|{backend}", f"hbar = {h}, homodyne(phi={phi:.3g}, select={x}*sqrt(hbar/2)) execution {attempt} raised {e!r}", case)
+                                break
+                            tol = 1e-5 if backend != "fock" else 2e-3
+                            if abs(got - x * s) > 1e-12:
+                                res.violation(f"C06|hbar-outcomes|reported-value|execution-{attempt}|{backend}", f"hbar = {h}: post-selected {x * s:.6g}, execution {attempt} of the same program reports {got:.6g}", case)
+                                break
+                            if abs(mx - m_ref[0]) > tol or abs(mp - m_ref[1]) > tol:
+                                res.violation(f"C06|hbar-outcomes|conditional-state|execution-{attempt}|{backend}", f"hbar = {h}, homodyne(phi={phi:.3g}) post-selected on {x} sqrt(hbar/2): execution {attempt} leaves mode 1 with means ({mx:.5f}, {mp:.5f}) sqrt(hbar/2), conditioning on {x} gives ({m_ref[0]:.5f}, {m_ref[1]:.5f})", case)
+                                break
+    finally:
+        sf.hbar = old
+    return res
+
+
 # ----------------------------------------------------------------------------- engine-level sample collation
 def check_collation(n, res):
     for k in range(1, n + 1):
@@ -576,6 +627,7 @@ def run(ctx):
     r = Res()
     check_collation(3, r)
     ctx.add(r)
+    ctx.add(check_hbar_outcomes(Res()))
     ctx.cov.update({"states": states, "transitions": ctx.n, "traces_validated_against_impl": ctx.n, "evaluations": ctx.n, "distinct_nontrivial": ctx.nt})
     ctx.assumptions += [
         "numpy.random and the thewalrus samplers are owned by the harness; what is decided is which distribution the code asks its random source for and what it does with each answer - not that numpy/thewalrus draw from that distribution",
@@ -586,6 +638,9 @@ def run(ctx):
 
 def replay(case):
     res = Res()
+    if case.get("hbar_outcomes"):
+        r = check_hbar_outcomes(Res())
+        return [(s, w) for s, w, c in r.viol if all(c[k] == case[k] for k in ("hbar", "backend", "phi", "x"))]
     if case.get("bosonic_cat"):
         from mc.checks import c06b
 
